@@ -122,8 +122,9 @@ Attempt(fi, call, st, h) ==
                          ELSE put(Frame(fi, "error", FALSE, Join(st.name), "", st.tok))
     [] st.k = "std"   -> put(Frame(fi, "error", FALSE, StdErr(st.std), "a", 0))
     [] st.k = "wait"  -> none("ok")        \* the handler waits for the other connections; no reply attempt
-    [] st.k = "unenc" -> IF call.oneway THEN none("ok") ELSE none("refused")   \* parameters that cannot be encoded: refused, reported,
-                                                                                \* nothing written (a oneway call never gets that far)
+    \* parameters that cannot be encoded, with Continues as the handler left it: the continues check comes first, a oneway
+    \* call never gets as far as encoding, otherwise refused and reported; nothing is written in any case
+    [] st.k = "unenc" -> IF h /\ ~call.more THEN none("refused") ELSE IF call.oneway THEN none("ok") ELSE none("refused")
     [] st.k = "pause" -> none("ok")        \* the handler does something else for a while; no reply attempt
 
 (* built-in answers: a call with pseudo script of one std/final step *)
@@ -357,7 +358,7 @@ RefusedReported == \A c \in Conns : \A i \in 1..Len(hlog[c]) :
          st == call.script[hlog[c][i].k] IN
      hlog[c][i].res = "refused" <=> ((st.k \in ReplyKinds /\ ContOf(st, HcAt(call.script, hlog[c][i].k)) /\ ~call.more)
                                      \/ (st.k = "err" /\ ~NameOK(st.name))
-                                     \/ (st.k = "unenc" /\ ~call.oneway))
+                                     \/ (st.k = "unenc" /\ ((HcAt(call.script, hlog[c][i].k) /\ ~call.more) \/ ~call.oneway)))
 
 (* C02: the frames the service cuts are the frames the client wrote, whole *)
 SegmentationIndependence ==
